@@ -1,13 +1,19 @@
 #!/bin/sh
-# tools/try_seed.sh <seed-dir> <ID> [<ID>...]: apply patch.diff to a scratch copy of /repo, run the quick checks against it.
-# (Other work may be using /repo at the same time, so the patch is never applied to /repo itself here.)
+# tools/try_seed.sh <seed-dir> <ID> [<ID>...] [-- extra check args]: apply patch.diff to a scratch copy of /repo and run the
+# checks against it from a PRIVATE worktree of /verif (regenerated Gen files and lake state of the main tree are not touched;
+# /repo itself is not touched either: other work may be using it).
 d=$1; shift
+W=/var/tmp/wt/seedrun
+if [ ! -d $W ]; then git -C /verif worktree add -q --detach $W HEAD || exit 1; fi
+(cd $W && git checkout -q --detach $(git -C /verif rev-parse HEAD) && git checkout -q -- . && python3 tools/gen_registry.py >/dev/null)
 S=/var/tmp/seedtry.$$
 rsync -a --exclude .git --exclude '*.o' --exclude '*.lo' --exclude '.libs' /repo/ $S/ || exit 1
-(cd $S && git init -q . 2>/dev/null; patch -p1 -s < "$d/patch.diff") || { echo "patch does not apply: $d"; rm -rf $S; exit 1; }
-rm -rf $S/.git
-for id in "$@"; do
-  echo "== $id on $(basename $d)"
-  (cd /verif && VERIF_REPO=$S timeout 3000 bin/check $id 2>&1 | grep -E "^(VIOLATION|KNOWN|OK|ERROR|BROKEN|DISAGREE)" | cut -c1-300 | head -6)
+(cd $S && patch -p1 -s < "$d/patch.diff") || { echo "patch does not apply: $d"; rm -rf $S; exit 1; }
+args=""
+ids=""
+for a in "$@"; do case "$a" in --*) args="$args $a";; thorough|quick) args="$args --tier $a";; *) ids="$ids $a";; esac; done
+for id in $ids; do
+  echo "== $id on $(basename $d) $args"
+  (cd $W && VERIF_REPO=$S timeout 7200 bin/check $id $args 2>&1 | grep -E "^(VIOLATION|KNOWN|OK|ERROR|BROKEN|DISAGREE)" | cut -c1-300 | head -6)
 done
 rm -rf $S
